@@ -441,7 +441,7 @@ func (t *Terminfo) TParm(s string, p ...interface{}) string {
 			ai, stk = stk.PopInt()
 			pb.PutString(strconv.Itoa(ai))
 
-		case '0', '1', '2', '3', '4', '5', '6', '7', '8', '9', 'x', 'X', 'o', ':':
+		case '0', '1', '2', '3', '4', '5', '6', '7', '8', '9', 'x', 'X', 'o', ':', '#', ' ':
 			// This is pretty suboptimal, but this is rarely used.
 			// None of the mainstream terminals use any of this,
 			// and it would surprise me if this code is ever
@@ -462,6 +462,10 @@ func (t *Terminfo) TParm(s string, p ...interface{}) string {
 			switch ch {
 			case 'd', 'x', 'X', 'o':
 				ai, stk = stk.PopInt()
+				if ai == 0 && (ch == 'x' || ch == 'X') {
+					// printf prefixes only a nonzero result
+					f = strings.Replace(f, "#", "", 1)
+				}
 				pb.PutString(fmt.Sprintf(f, ai))
 			case 's':
 				a, stk = stk.PopString()
